@@ -253,7 +253,7 @@ func c03(args []string) {
 		}
 	}
 	for len(pool) < 40 {
-		cfg := mesgGenCfg{wellFormed: true, maxFields: 6, unknown: true, tsMode: r.intn(5)}
+		cfg := mesgGenCfg{wellFormed: true, maxFields: 6, unknown: true, tsMode: r.pick(0, 1, 2, 3, 4, 5, 5, 6)}
 		ec := r.encCfg()
 		ec.protoVer = proto.V2
 		if b, err := encodeFit(ec, r.genFit(cfg, 1+r.intn(6), r.chance(1, 2))); err == nil {
